@@ -20,7 +20,7 @@ PROPS = {
         why="the parser theorem is a soundness theorem: a change that makes the parser reject (or the tokenizer fail on) a sentence of the grammar violates no contract; completeness needs a functional tokenizer specification and uniqueness of witnesses, which are not within reach",
         bound="fixed + seeded corpus of vx/corpus.py (about 4000 inputs: every ordered pair of operators plain and negated, prefix/postfix/conditional/call/list/map forms, corruptions of valid programs, multi-byte neighbours, random expressions of depth <= 3) against the reference grammar of vx/oracle.py"),
     not_covered=["uniqueness of the derivation witness", NC_COMPLETE + ' - bounded stand-in only']),
- 'C03': dict(units=['hv', 'ev'], assumptions=[A1, A2, A3, A4, A5, A6],
+ 'C03': dict(units=['hv', 'ev', 'lb'], assumptions=[A1, A2, A3, A4, A5, A6],
     level_text="Unbounded proof: each of the 23 built-in handlers (lifted byte-for-byte from the init() functions) agrees with a spec function written from the README/property for every operand value, including every wrongly-typed operand; the evaluator agrees with the big-step semantics sem for every AST and context.",
     level_note="Decimal arithmetic itself is the dependency's (A3: uninterpreted dec_add...); user handlers are opaque (A4).",
     not_covered=["user-registered handlers", "float()"]),
@@ -28,7 +28,7 @@ PROPS = {
     level_text="Unbounded proof: inside every built-in handler each panicking operation has its precondition discharged (checked Decimal ops, shift count in 0..=63, non-empty aggregate) and the postcondition forces Ok(exact) or Err; integer() is Ok(n) exactly for integral in-range numbers.",
     level_note="Panicking Decimal operators have no dischargeable precondition in the model, so any reintroduction fails; A3 for the checked forms.",
     not_covered=["user-registered handlers"]),
- 'C05': dict(units=['tp'], assumptions=[A1, A2, A3, A6, A7, A8],
+ 'C05': dict(units=['tp', 'lb'], assumptions=[A1, A2, A3, A6, A7, A8],
     level_text="Unbounded proof (the parser theorem, see C02): an accepted input is exactly a token chain of the documented grammar to EOF - every separator/delimiter/operator token has the required text, nothing dropped, nothing consumed as something else; expect() is Ok only on a match; string/number scanners return Ok only for a terminated string / a valid decimal.",
     always_bounded=dict(function='rejection/acceptance agreement of parse_expression with the documented grammar (completeness clause)', categories=['parse'],
         why="see C02: acceptance of every sentence of the grammar is outside the contracts' reach",
